@@ -1022,7 +1022,7 @@ def _infer_struct_type(obj):
     if isinstance(obj, list):
         for v in obj:
             if v is not None:
-                return ArrayType(_infer_type(obj[0]), True)
+                return ArrayType(_infer_type(v), True)
         return ArrayType(NullType(), True)
     if isinstance(obj, array):
         if obj.typecode in _array_type_mappings:
